@@ -38,7 +38,10 @@ META = {
         "missing / mistyped modelType, bad base64; every XML element dropped, duplicated, "
         "renamed, re-namespaced, swapped with its sibling, given text / child / attribute, "
         "emptied, text replaced; every prefix of the document cut at a tag boundary, "
-        "empty and non-XML input; non-trivial = instance differs from the base instance "
+        "empty and non-XML input; histories: for 5 inner types the same names are "
+        "generated with other kinds behind them (constrained str <-> int, property "
+        "types, literal values) in one process, in the order flavour 0, 1, 0, and each "
+        "SDK is explored as above (state leaking between generations); non-trivial = instance differs from the base instance "
         "or document is mutated"
     ),
     "bounds": {
@@ -60,7 +63,28 @@ INNER = [
 WRAPS = ["{t}", "Optional[{t}]", "List[{t}]", "Optional[List[{t}]]"]
 
 
-def prelude_spec(holder_props: List[Tuple[str, str]]) -> sdk.Spec:
+def prelude_spec(holder_props: List[Tuple[str, str]], flavour: int = 0) -> sdk.Spec:
+    """
+    ``flavour`` 1 keeps every name but changes the kind behind it (constrained str <->
+    constrained int, property types, literal values): generating both flavours in one
+    process exposes state which leaks from one generation into the next.
+    """
+    if flavour == 1:
+        return sdk.Spec(
+            enums={"Color": [("Red", "r"), ("Green", "g"), ("Dark_blue", "b")]},
+            cprims=[
+                sdk.CPrim("Tag", "int", [("self >= 0", "Tag must be non-negative.")]),
+                sdk.CPrim("Level", "str", [("len(self) >= 1", "Level must not be empty.")]),
+            ],
+            classes=[
+                sdk.Cls("Item", [("count", "str"), ("label", "Optional[int]")]),
+                sdk.Cls("Basis", [("name", "int")], abstract=True, model_type=True),
+                sdk.Cls("Mid", [("size", "str")], bases=["Basis"]),
+                sdk.Cls("Leaf", [("flag", "float"), ("extra", "Optional[List[Item]]")], bases=["Mid"]),
+                sdk.Cls("Other", [], bases=["Basis"]),
+                sdk.Cls("Holder", holder_props),
+            ],
+        )
     return sdk.Spec(
         enums={"Color": [("Red", "red"), ("Green", "green-ish"), ("Dark_blue", "DARK BLUE")]},
         cprims=[
@@ -98,6 +122,8 @@ QUICK_SINGLES = [
 
 def shards(tier: str) -> List[Any]:
     result = [("all", tier)]  # type: List[Any]
+    for inner in ("Tag", "Level", "Item", "Basis", "Color"):
+        result.append(("sequence", tier, inner))
     if tier == "quick":
         for inner, wrap in QUICK_SINGLES:
             result.append(("single", tier, inner, wrap))
@@ -575,10 +601,20 @@ def spec_of_shard(shard: Any) -> Tuple[sdk.Spec, Any, int, bool]:
 
 def work(shard: Any) -> Result:
     result = Result()
-    spec, model_info, bound, with_non_xml = spec_of_shard(shard)
     try:
         with time_limit(3000):
-            explore_model(spec, model_info, result, bound, with_non_xml)
+            if shard[0] == "sequence":
+                # one process, three generations: flavour 0, flavour 1 (same names, other
+                # kinds), flavour 0 again; each SDK must behave as if generated alone
+                inner = shard[2]
+                for wrap in (0, 3):
+                    for flavour in (0, 1, 0):
+                        props = [("value", WRAPS[wrap].format(t=inner))]
+                        info = {"kind": "sequence", "inner": inner, "wrap": wrap, "flavour": flavour}
+                        explore_model(prelude_spec(props, flavour), info, result, 1, False)
+            else:
+                spec, model_info, bound, with_non_xml = spec_of_shard(shard)
+                explore_model(spec, model_info, result, bound, with_non_xml)
     except CaseTimeout:
         result.timeouts += 1
     return result
@@ -586,7 +622,16 @@ def work(shard: Any) -> Result:
 
 def replay(case: Any) -> List[Violation]:
     info = case["model"]
-    if info["kind"] == "all":
+    if info["kind"] == "sequence":
+        props = [("value", WRAPS[info["wrap"]].format(t=info["inner"]))]
+        # replay the history which leads to the state: the other flavour first
+        warm = worker_tmp() / "c10-replay-warm"
+        warm_sdk, _ = sdk.python_sdk(sdk.render(prelude_spec(props, 1 - info["flavour"])), warm, "Holder")
+        if warm_sdk is not None:
+            warm_sdk.close()
+        shutil.rmtree(warm, ignore_errors=True)
+        spec = prelude_spec(props, info["flavour"])
+    elif info["kind"] == "all":
         spec = prelude_spec(all_shapes())
     elif info["kind"] == "single":
         spec = prelude_spec([("value", WRAPS[info["wrap"]].format(t=info["inner"]))])
